@@ -37,7 +37,8 @@ m = {
     "checks": [],
     "not_applicable": [],
     "notes": "Bounded claims only: every pass is 'for all values within the stated sizes/unwindings'. Exit 2 = inconclusive "
-             "(timeout, OOM, compiler error, non-reproducing counterexample) and is never a pass. Known findings: /verif/known_findings.json.",
+             "(timeout, OOM, compiler error, non-reproducing counterexample) and is never a pass. Known findings: /verif/known_findings.json. "
+             "Run the checks one at a time: C09 (and the thorough tiers of C08 and C03) use two CBMC processes of up to 30 GB each.",
 }
 for pid in sorted(table.PROPS):
     p = table.PROPS[pid]
